@@ -287,6 +287,7 @@ Ltac norm :=
     | H : deref ?T ?p = _ |- context [deref ?T ?p] => rewrite H
     | H : (?a =? ?b) = _ |- context [?a =? ?b] => rewrite H
     | H : (?a =? ?b) = false |- context [?b =? ?a] => rewrite (eqb_false_sym a b H)
+    | H : (?a =? ?b) = true |- context [?b =? ?a] => rewrite (N.eqb_sym b a), H
     | H : (?a <=? ?b) = _ |- context [?a <=? ?b] => rewrite H
     end
   | rewrite deref_put
